@@ -31,6 +31,8 @@ impl OperationControl for BackReference {
         matcher: &'a ReMatcher,
         position: usize,
     ) -> Box<dyn Iterator<Item = usize> + 'a> {
+        #[cfg(feature = "verif-hooks")]
+        crate::verif::step(crate::verif::site::BACKREF_MATCH);
         // Get the start and end of the backref
         let s = matcher.start_backref(self.group_nr);
         let e = matcher.end_backref(self.group_nr);
